@@ -187,6 +187,12 @@ class IndexTyper:
                 return I(a[1], a[2] + 1)  # name of one past the span; "- 1" brings it back
             if a == "LEN" and isinstance(b, tuple) and b[0] == "C":
                 return I(0, 1 + sg * b[1])  # len(seq) = position of the last element + 1
+            if isinstance(a, tuple) and a[0] == "I" and b == "OFF":
+                return a  # a position moved by an offset inside its span names a position of the same base
+            if a == "OFF" and isinstance(b, tuple) and b[0] == "I" and sg == 1:
+                return b
+            if a == "OFF" and isinstance(b, tuple) and b[0] == "C":
+                return "OFF"
             if isinstance(a, tuple) and a[0] == "I" and isinstance(b, tuple) and b[0] == "I":
                 if a[1] != b[1] and sg == -1:
                     self.err(e, f"difference of a base-{a[1]} and a base-{b[1]} index")
@@ -217,6 +223,9 @@ class IndexTyper:
                 return "LEN"
             if f == "range":
                 if len(args) == 1:
+                    # range(len(x)) enumerates positions of x; range(<a length held in a variable>) enumerates offsets within a span
+                    if args[0] == "LEN" and not (isinstance(e.args[0], ast.Call) and ast.unparse(e.args[0].func) == "len"):
+                        return ("RANGE", "OFF")
                     return ("RANGE", I(0))
                 lo, hi = args[0], args[1]
                 if isinstance(lo, tuple) and lo[0] == "I":
